@@ -1139,6 +1139,9 @@ def c01_r12(ctx):
             a0 = allargs(e)[0] if isinstance(e, ast.Call) and allargs(e) else None
             if isinstance(e, ast.Call) and isinstance(e.func, ast.Attribute) and e.func.attr == "append" and isinstance(a0, ast.Call) and is_name(a0.func, "RelatedClassData"):
                 cn, tn = kw(a0, "class_name"), kw(a0, "type_name")
+                from ..absint import subst as _sb3
+                cn = strip_pre(_sb3(cn, o.env, deep=True)) if cn is not None else None
+                tn = strip_pre(_sb3(tn, o.env, deep=True)) if tn is not None else None
                 if cn is not None and tn is not None and "<elem>" in norm(tn) and norm(cn) in (f"class_name + {norm(tn)}", f"f'{{class_name}}{{{norm(tn)}}}'"):
                     per = True
             if isinstance(e, ast.Call) and isinstance(e.func, ast.Attribute) and e.func.attr == "extend" and isinstance(a0, (ast.GeneratorExp, ast.ListComp)):
